@@ -71,8 +71,8 @@ class Hist:
             # answers the apex, contains() rejects it (|row| * rounding > 1e-8) and the repair fails - the node stays
             # Indeterminate and must be kept with everything below it
             assert self.n == 2
-            S = rng.choice([1e8, 3e7, 2.5e8])
-            eps = rng.choice([1e-2, 2e-2, 5e-3])
+            S = rng.choice([1e8, 3e7, 2.5e8, 1e6, 1e7])
+            eps = rng.choice([1e-2, 2e-2, 5e-3, 0.1, 0.5, 1.0])      # narrow: the vertex cannot be repaired; wide: it can
             ax, ay = rng.choice([(1.0 / 3.0, 3.141592653589793), (-2.0 / 7.0, 2.718281828459045), (10.0 / 3.0, -1.0 / 7.0)])
             upper = ([[FR(-eps * S), FR(S)]], [FR((ay - eps * ax) * S)])          # (y-ay) - eps (x-ax) <= 0
             lower = ([[FR(-eps * S), FR(-S)]], [FR((-ay - eps * ax) * S)])        # -(y-ay) - eps (x-ax) <= 0
